@@ -142,6 +142,18 @@ func (p c06) Gen(c *run.Ctx, idx int) (json.RawMessage, error) {
 	if op == nil {
 		return nil, nil
 	}
+	if idx%9 == 4 {
+		// __typename of the root next to the mutation fields: answered by the gateway, the fields still go to their owners
+		if doc, err := gqlparser.LoadQuery(cu.mono, op.Query); err == nil && len(doc.Operations) == 1 && len(doc.Operations[0].SelectionSet) > 0 {
+			if f, ok := doc.Operations[0].SelectionSet[0].(*ast.Field); ok && f.Position != nil && f.Position.Start > 0 && f.Position.Start < len(op.Query) {
+				q := op.Query[:f.Position.Start] + pick(r, []string{"__typename ", "t0: __typename ", "... on Mutation { __typename } "}) + op.Query[f.Position.Start:]
+				if _, err := gqlparser.LoadQuery(cu.mono, q); err == nil {
+					op.Query = q
+					op.Tags = append(op.Tags, "root-typename")
+				}
+			}
+		}
+	}
 	cs := c06Case{U: cu.spec, Op: *op, FaultAt: -1, Repeat: 1}
 	cs.Cfg.Hint = idx%2 == 1
 	switch r.Intn(3) {
@@ -190,6 +202,9 @@ func mutationRoots(s *ast.Schema, op *gen.Op) ([]rootKey, error) {
 				k := x.Alias
 				if k == "" {
 					k = x.Name
+				}
+				if x.Name == "__typename" {
+					continue // answered by the gateway itself
 				}
 				out = append(out, rootKey{k, x.Name})
 			case *ast.InlineFragment:
